@@ -65,14 +65,16 @@ Proof.
   apply run_aval_mono. intros t. apply aval_step_mono. intros; apply IH.
 Qed.
 
-Lemma eval_attrs_mono f d : forall attrs, le_out (eval_attrs f d attrs) (eval_attrs (S f) d attrs).
+Lemma eval_attrs_mono f d open : forall attrs,
+  le_out (eval_attrs f d open attrs) (eval_attrs (S f) d open attrs).
 Proof.
   induction attrs as [|[a v] r IH]; [apply le_out_refl|].
   simpl eval_attrs. apply le_obind; [apply attval_mono|]. intros s.
   apply le_obind; [apply IH|]. intros; apply le_out_refl.
 Qed.
 
-Lemma start_tag_mono f d nm attrs : le_out (start_tag f d nm attrs) (start_tag (S f) d nm attrs).
+Lemma start_tag_mono f d open nm attrs :
+  le_out (start_tag f d open nm attrs) (start_tag (S f) d open nm attrs).
 Proof.
   unfold start_tag. destruct (negb _); [apply le_out_refl|].
   apply le_obind; [apply eval_attrs_mono|]. intros; apply le_out_refl.
@@ -176,4 +178,128 @@ Proof.
   destruct (read_mono m cfg resolve x) as [H|H].
   - exfalso. apply Hne. unfold result. rewrite <- IH. exact H.
   - rewrite <- H. exact IH.
+Qed.
+
+(* ------------------------------------------------------------------ *)
+(* Fuel suffices: once the DTD is fixed, reading attribute values and  *)
+(* content never runs out of fuel when the fuel exceeds the number of  *)
+(* declared general entities that are not already open -- an open      *)
+(* entity cannot be opened again (recursive entity reference), so the  *)
+(* nesting depth is bounded by the number of declarations.             *)
+(* ------------------------------------------------------------------ *)
+
+Definition enough (fuel : nat) (d : dtd) (open : list name) : Prop :=
+  NoDup open /\ incl open (map fst (gents d)) /\ length (gents d) < fuel + length open.
+
+Lemma mem_false_not_In n l : mem n l = false -> ~ In n l.
+Proof.
+  induction l as [|k r IH]; simpl; [auto|].
+  intros H [E|E].
+  - subst. rewrite N.eqb_refl in H. discriminate.
+  - apply orb_false_iff in H as [_ H]. exact (IH H E).
+Qed.
+
+Lemma lookup_In_fst {V} n (l : list (name * V)) v : lookup n l = Some v -> In n (map fst l).
+Proof.
+  induction l as [|[k w] r IH]; simpl; [discriminate|].
+  destruct (N.eqb k n) eqn:E; [apply N.eqb_eq in E; left; exact E|intros H; right; auto].
+Qed.
+
+Lemma enough_pos fuel d open : enough fuel d open -> fuel <> 0.
+Proof.
+  intros (Hn & Hi & Hl) ->. simpl in Hl.
+  pose proof (NoDup_incl_length Hn Hi) as H. rewrite map_length in H. lia.
+Qed.
+
+Lemma enough_open f d open n e :
+  enough (S f) d open -> lookup n (gents d) = Some e -> mem n open = false ->
+  enough f d (n :: open).
+Proof.
+  intros (Hn & Hi & Hl) El Em. split; [|split].
+  - constructor; [apply mem_false_not_In; exact Em|exact Hn].
+  - intros x [<-|Hx]; [eapply lookup_In_fst; eauto|apply Hi; exact Hx].
+  - simpl. lia.
+Qed.
+
+Lemma obind_not_fuel {A B} (m : outcome A) (k : A -> outcome B) :
+  m <> Fuel -> (forall a, k a <> Fuel) -> obind m k <> Fuel.
+Proof. destruct m; simpl; auto; discriminate. Qed.
+
+Lemma bind_not_fuel {A B} (m : logged A) (k : A -> logged B) :
+  snd m <> Fuel -> (forall a, snd (k a) <> Fuel) -> snd (bind m k) <> Fuel.
+Proof.
+  destruct m as [l [a| |]]; simpl; intros Hm Hk; try discriminate; [|contradiction].
+  specialize (Hk a). destruct (k a); exact Hk.
+Qed.
+
+Lemma run_aval_not_fuel step : (forall t, step t <> Fuel) -> forall l, run_aval step l <> Fuel.
+Proof.
+  intros H. induction l as [|t r IH]; simpl; [discriminate|].
+  apply obind_not_fuel; [apply H|]. intros s.
+  apply obind_not_fuel; [exact IH|]. discriminate.
+Qed.
+
+Lemma attval_suffices : forall fuel d check open l,
+  enough fuel d open -> attval fuel d check open l <> Fuel.
+Proof.
+  induction fuel as [|f IH]; intros d check open l He.
+  - exfalso. exact (enough_pos _ _ _ He eq_refl).
+  - simpl. apply run_aval_not_fuel. intros t. destruct t; simpl; try discriminate.
+    destruct (predefined n); [discriminate|].
+    destruct (lookup n (gents d)) as [e|] eqn:El; [|destruct check; discriminate].
+    destruct (mem n open) eqn:Em; [discriminate|].
+    destruct e; try discriminate. apply IH. eapply enough_open; eauto.
+Qed.
+
+Lemma eval_attrs_suffices fuel d open : enough fuel d open ->
+  forall attrs, eval_attrs fuel d open attrs <> Fuel.
+Proof.
+  intros He. induction attrs as [|[a v] r IH]; simpl; [discriminate|].
+  apply obind_not_fuel; [apply attval_suffices; exact He|]. intros s.
+  apply obind_not_fuel; [exact IH|]. discriminate.
+Qed.
+
+Lemma start_tag_suffices fuel d open nm attrs : enough fuel d open ->
+  start_tag fuel d open nm attrs <> Fuel.
+Proof.
+  intros He. unfold start_tag. destruct (negb _); [discriminate|].
+  apply obind_not_fuel; [apply eval_attrs_suffices; exact He|]. discriminate.
+Qed.
+
+Lemma run_toks_suffices step : (forall tags t, snd (step tags t) <> Fuel) ->
+  forall l tags, snd (run_toks step tags l) <> Fuel.
+Proof.
+  intros H. induction l as [|t r IH]; intros tags; simpl; [discriminate|].
+  apply bind_not_fuel; [apply H|]. intros x.
+  apply bind_not_fuel; [apply IH|]. intros; discriminate.
+Qed.
+
+(* for any behaviour of the external-entity gate: only declared entities can be
+   opened, also inside fetched replacement text *)
+Lemma content_suffices ext : forall fuel d open lvl tags l,
+  enough fuel d open -> snd (content ext fuel d open lvl tags l) <> Fuel.
+Proof.
+  induction fuel as [|f IH]; intros d open lvl tags l He.
+  - exfalso. exact (enough_pos _ _ _ He eq_refl).
+  - simpl. apply run_toks_suffices. intros tg t. destruct t; simpl; try discriminate.
+    + destruct (predefined n); [discriminate|].
+      destruct (lookup n (gents d)) as [e|] eqn:El; [|destruct (check_content d); discriminate].
+      destruct (mem n open) eqn:Em; [discriminate|].
+      pose proof (enough_open _ _ _ _ _ He El Em) as He'.
+      destruct e as [v|s|]; try discriminate.
+      * apply bind_not_fuel; [apply IH; exact He'|]. intros x. destruct (Nat.eqb _ _); discriminate.
+      * apply bind_not_fuel; [unfold call_ext; destruct (ext s); discriminate|].
+        intros [| |[v|v]]; try discriminate.
+        apply bind_not_fuel; [apply IH; exact He'|]. intros x. destruct (Nat.eqb _ _); discriminate.
+    + pose proof (start_tag_suffices (S f) d open nm attrs He) as Hs.
+      destruct (start_tag _ _ _ _ _); try discriminate. contradiction.
+    + destruct tg; [discriminate|]. destruct (Nat.leb _ _); [discriminate|].
+      destruct (N.eqb _ _); discriminate.
+Qed.
+
+(* the statement used in Props: the body of a document, read from the top *)
+Lemma content_fuel_suffices ext fuel d lvl tags l :
+  length (gents d) < fuel -> snd (content ext fuel d [] lvl tags l) <> Fuel.
+Proof.
+  intros H. apply content_suffices. split; [constructor|split; [intros x []|simpl; lia]].
 Qed.
